@@ -94,6 +94,16 @@ let codec_case (line : string) : string =
     (match uuid_parse (bytes_of_hex hx) with
      | Some b -> id ^ " b " ^ hex_of_bytes b
      | None -> id ^ " err")
+  | [id; "B"; _mode; recs] ->
+    (* batch through the repository: <seq>,<tx>,<cid>,<key>;...  (key may be empty) *)
+    let parse s = match String.split_on_char ',' s with
+      | [sq; tx; cid; key] -> { r_seq = n_of_string sq; r_tx = bytes_of_hex tx; r_cid = bytes_of_hex cid; r_key = bytes_of_hex key }
+      | _ -> failwith ("bad record: " ^ s) in
+    let rs = if recs = "-" then [] else List.map parse (String.split_on_char ';' recs) in
+    (match run_batch rs with
+     | Some out -> id ^ " R " ^ (if out = [] then "-" else String.concat ";" (List.map (fun r ->
+         String.concat "," [string_of_n r.r_seq; hex_of_bytes r.r_tx; hex_of_bytes r.r_cid; hex_of_bytes r.r_key]) out))
+     | None -> id ^ " err")
   | _ -> failwith ("bad codec case: " ^ line)
 
 (* ---------- histories (Core model / spec) ---------- *)
